@@ -104,9 +104,9 @@ func (e *codedErr) Error() string {
 	}
 	return "coded-" + e.name
 }
-func (e *codedErr) ExitCode() int { return 3 }
+func (e *codedErr) ExitCode() int   { return 3 }
 func (e *codedErr) ExitStatus() int { return 3 }
-func (e *codedErr) Code() int { return 3 }
+func (e *codedErr) Code() int       { return 3 }
 
 var panicKinds = []string{"error value", "user error type with ExitCode()/ExitStatus()/Code() methods", "int", "string", "nil-pointer of a user error type",
 	// panic(nil): under the language version of the library's go.mod recover() returns nil for it, so a library can
